@@ -1,3 +1,4 @@
 import Proofs.C02
 import Proofs.C03
+import Proofs.C09
 import Proofs.C20
